@@ -743,7 +743,7 @@ func (v Value) convert(t Type) (res Value) {
 }
 
 func (v Value) IsNil() bool {
-	switch v.t {
+	switch v.t.base() { // (a typed nil carries its element or struct type above the base bits)
 	case TypeNil:
 		return true
 	case TypeObject, TypeFunc, TypeSlice, TypeStruct, TypeMap:
